@@ -236,6 +236,46 @@ def run(prog: Program, ctx: Ctx) -> None:  # noqa: PLR0912,PLR0915
     ctx.analysed["extraction_modules"] = n10
 
 
+    # ------------------------------------------------------------------ R11 every registered extension hears every event
+    ctx.rule("R11", "Extensions.call(event) reaches the hook of that name on every registered extension, whether the extension's class defines the "
+                    "hook itself or inherits it from a base class")
+    from sa.absint import Interp as _Interp11, Obj as _Obj11, Raised as _Raised11
+
+    it11 = _Interp11(prog)
+    base_ext = prog.cls("_griffe.extensions.base.Extension")
+    exts_cls = prog.cls("_griffe.extensions.base.Extensions")
+    hooks = sorted(n_ for n_ in base_ext.methods if n_.startswith("on_"))
+    heard: list[tuple[str, str]] = []
+    for h_ in hooks:
+        it11.stubs[f"_griffe.extensions.base.Extension.{h_}"] = (lambda h_: (lambda _i, self_, **_k: heard.append((h_, self_.label))))(h_)
+    sub = next((c_ for c_ in prog.subclasses(base_ext) if c_ is not base_ext), None)  # an extension that inherits most hooks (the built-in one)
+    n11 = 0
+    if sub is None:
+        raise AnalysisError("C01-R11: no in-repository subclass of Extension to register")
+    own_hooks = {n_ for n_ in sub.methods if n_.startswith("on_")}
+    try:
+        e1, e2 = _Obj11(base_ext, {}, label="first"), _Obj11(sub, {}, label="second (inherits its hooks)")
+        reg = it11._construct(exts_cls, [e1, e2], {})
+        for h_ in hooks:
+            if h_ in own_hooks:
+                continue
+            heard.clear()
+            it11.steps = 0
+            it11.call(prog.lookup_method(exts_cls, "call")[0], reg, h_, node=None, agent=None)
+            n11 += 1
+            ctx.ob("R11", f"event|{h_}", heard == [(h_, "first"), (h_, "second (inherits its hooks)")],
+                   f"call({h_!r}) with two extensions registered (the second one inherits {h_}): heard by {[l_ for _h, l_ in heard]}, in that order", where(prog.lookup_method(exts_cls, "call")[0]))
+    except _Raised11 as r:
+        ctx.ob("R11", "event|registry", False, f"registering two extensions and calling an event raises {r.exc}", where(prog.lookup_method(exts_cls, "call")[0]))
+    ctx.expect_min("R11", n11, 10)
+
+
+    # ------------------------------------------------------------------ R12 what the `__all__` statements of a module leave in its exports
+    from sa.rules.C05 import exports_table
+
+    exports_table(prog, ctx, "R12")
+
+
 def _branch_of(node: ast.AST) -> str:
     """Stable discriminator for sibling call sites in one function: the texts of the enclosing if-tests."""
     parts = []
